@@ -27,7 +27,10 @@ func init() { registry["C09"] = runC09 }
 // earlier actions (numbers inside arrays, nested objects, saved bindings of a
 // failed step).
 func c09Spec(c *sim.Ctx) *ref.Spec {
-	vals := []interface{}{1.0, 2.5, []interface{}{1.0}, []interface{}{1.0, "x"}, map[string]interface{}{"q": 1.0}, map[string]interface{}{"q": []interface{}{2.0}}, nil, "x", []interface{}{[]interface{}{1.0}}}
+	vals := []interface{}{1.0, 2.5, []interface{}{1.0}, []interface{}{1.0, "x"}, map[string]interface{}{"q": 1.0}, map[string]interface{}{"q": []interface{}{2.0}}, nil, "x", []interface{}{[]interface{}{1.0}},
+		// objects inside arrays: a later in-place change reaches every part of the state that shares them
+		[]interface{}{map[string]interface{}{"tries": 0.0}}, []interface{}{map[string]interface{}{"q": 1.0}, []interface{}{map[string]interface{}{"r": 2.0}}},
+		[]interface{}{1.0, 2.0}}
 	val := func() interface{} { return ref.CopyVal(vals[c.Intn(len(vals), "c09val")]) }
 	pat := func() interface{} {
 		k := bsKeys[c.Intn(3, "c09patkey")]
@@ -83,7 +86,7 @@ func c09Spec(c *sim.Ctx) *ref.Spec {
 		case 1, 2: // action node producing values, then bindings branching that inspects them
 			a := &ref.Action{}
 			for i := 0; i < 1+c.Intn(3, "c09ops"); i++ {
-				switch c.Intn(11, "c09op") {
+				switch c.Intn(13, "c09op") {
 				case 0, 1, 2, 3:
 					a.Ops = append(a.Ops, ref.Op{Kind: "set", K: bsKeys[c.Intn(3, "c09k")], V: val()})
 				case 4:
@@ -94,6 +97,12 @@ func c09Spec(c *sim.Ctx) *ref.Spec {
 					a.Ops = append(a.Ops, ref.Op{Kind: "throw"})
 				case 7:
 					a.Ops = append(a.Ops, ref.Op{Kind: "del", K: "?q"})
+				case 11:
+					// change an object nested in a binding in place
+					a.Ops = append(a.Ops, ref.Op{Kind: "nest", K: bsKeys[c.Intn(3, "c09k")], K2: "touched", V: float64(1 + c.Intn(3, "touch"))})
+				case 12:
+					// a pattern variable bound to an array of integers, compared with a later message's array
+					a.Ops = append(a.Ops, ref.Op{Kind: "set", K: "?v", V: [][]interface{}{{1.0, 2.0}, {1.0}, {2.0, "x"}}[c.Intn(3, "boundarr")]})
 				case 10:
 					// a pattern variable bound by the action (an integer) and re-used by a later message pattern
 					a.Ops = append(a.Ops, ref.Op{Kind: "set", K: "?v", V: []interface{}{1.0, 2.0}[c.Intn(2, "boundv")]})
@@ -141,6 +150,35 @@ func c09IneqSpec(c *sim.Ctx) *ref.Spec {
 	}}
 }
 
+// c09ShareSpec: a value with objects inside an array ends up referenced from
+// several places of one state (the saved bindings of a failed step, a variable
+// bound to them), and a later action changes one of those objects in place.
+func c09ShareSpec(c *sim.Ctx) *ref.Spec {
+	k := bsKeys[c.Intn(3, "sharekey")]
+	val := []interface{}{map[string]interface{}{"tries": 0.0}, []interface{}{map[string]interface{}{"r": 1.0}}}
+	msg := func(next string) *ref.Node {
+		return &ref.Node{HasBr: true, Type: "message", Branches: []*ref.Branch{{HasPat: true, Pattern: map[string]interface{}{"a": "?"}, Target: next}, {Target: next}}}
+	}
+	act := func(next string, ops ...ref.Op) *ref.Node {
+		return &ref.Node{Action: &ref.Action{Ops: ops}, HasBr: true, Type: "bindings", Branches: []*ref.Branch{{Target: next}}}
+	}
+	s := &ref.Spec{Nodes: map[string]*ref.Node{
+		"n0":    msg("make"),
+		"make":  act("w1", ref.Op{Kind: "set", K: k, V: val}),
+		"w1":    msg("fail"),
+		"fail":  act("w2", ref.Op{Kind: "throw"}),
+		"error": {HasBr: true, Type: "bindings", Branches: []*ref.Branch{{HasPat: true, Pattern: map[string]interface{}{"lastBindings": map[string]interface{}{k: "?q"}}, Target: "w2"}}},
+		"w2":    msg("touch"),
+		"touch": act("w3", ref.Op{Kind: "nest", K: k, K2: "touched", V: float64(1 + c.Intn(3, "touch"))}, ref.Op{Kind: "emitb", K: "?q"}),
+		"w3":    msg("n0"),
+	}}
+	if c.Bool("touchq") {
+		s.Nodes["touch"].Action.Ops[0].K = "?q"
+		s.Nodes["touch"].Action.Ops[1].K = k
+	}
+	return s
+}
+
 func reload(st *core.State) (*core.State, error) {
 	js, err := json.Marshal(st)
 	if err != nil {
@@ -183,11 +221,13 @@ func runC09(c *sim.Ctx, t *testing.T) {
 	sim.Install(c)
 	defer sim.Uninstall()
 	var gs *ref.Spec
-	switch c.Intn(6, "speckind") {
+	switch c.Intn(7, "speckind") {
 	case 0, 1:
 		gs = genSpec(c, genCfg{failOps: true, permanents: true, guards: true, loops: true, maxNodes: 5})
 	case 2:
 		gs = c09IneqSpec(c)
+	case 3:
+		gs = c09ShareSpec(c)
 	default:
 		gs = c09Spec(c)
 	}
@@ -198,6 +238,11 @@ func runC09(c *sim.Ctx, t *testing.T) {
 	}
 	ctx := context.Background()
 	hist := genHistory(c, 6)
+	for i := range hist {
+		if c.Chance(1, 5, "arraymsg") {
+			hist[i].(map[string]interface{})["a"] = [][]interface{}{{1.0, 2.0}, {1.0}, {2.0, "x"}}[c.Intn(3, "msgarr")]
+		}
+	}
 	start := ref.State{Node: "n0", Bs: map[string]interface{}{}}
 	ctl := &core.Control{Limit: 15}
 	type obs struct{ state, emitted string }
